@@ -117,6 +117,23 @@ def prop_theorems(pid):
     src = os.path.join(COQ, "Properties", pid + ".v")
     tmpdir = os.path.join(BUILD, "props")
     os.makedirs(tmpdir, exist_ok=True)
+    # Print Assumptions walks the whole dependency graph of proof terms (minutes for the task-state
+    # proofs); its answer only depends on the Coq sources (gen/Consts.v included), so it is cached
+    # under a hash of all of them.
+    h = hashlib.sha256()
+    for root, _, files in sorted(os.walk(COQ)):
+        for fn in sorted(files):
+            if fn.endswith(".v") and not fn.startswith("_goal_"):
+                h.update(fn.encode()); h.update(open(os.path.join(root, fn), "rb").read())
+    key = h.hexdigest()
+    cache = os.path.join(tmpdir, pid + ".cache.json")
+    if os.path.exists(cache):
+        try:
+            c = json.load(open(cache))
+            if c.get("key") == key:
+                return [tuple(x) for x in c["thms"]]
+        except Exception:
+            pass
     rc, out = sh(["coqc", "-q", "-Q", ".", "NX", "-w", "-notation-overridden", "-o", os.path.join(tmpdir, pid + ".vo"), src],
                  cwd=COQ, timeout=900)
     if rc != 0:
@@ -145,6 +162,7 @@ def prop_theorems(pid):
     res = []
     for n, b in zip(names, blocks):
         res.append((n, "closed" if b == "closed" else "; ".join(b)))
+    json.dump({"key": key, "thms": res}, open(cache, "w"))
     return res
 
 
